@@ -228,6 +228,12 @@ func (g *Gen) execBlock(b *ssa.BasicBlock) error {
 		}
 	}
 	g.out[b] = g.cur
+	// vacuity guard: the block must be reachable under everything assumed so far
+	if reach != "true" {
+		g.curGuard = reach
+		cv := g.oblige("cover", fmt.Sprintf("reach:b%d", b.Index), "false", g.blockPos(b), "block is reachable under the assumptions made up to its end")
+		cv.Must = "sat"
+	}
 	// back edges leaving this block
 	for si, s := range b.Succs {
 		if isBackEdge(b, s) {
@@ -406,6 +412,15 @@ func (g *Gen) constVal(c *ssa.Const) *Val {
 	return v
 }
 
+func (g *Gen) blockPos(b *ssa.BasicBlock) token.Pos {
+	for _, x := range b.Instrs {
+		if p := x.Pos(); p.IsValid() {
+			return p
+		}
+	}
+	return g.fn.Pos()
+}
+
 func (g *Gen) pos(in ssa.Instruction) token.Pos {
 	if p := in.Pos(); p.IsValid() {
 		return p
@@ -568,7 +583,7 @@ func (g *Gen) execIndexAddr(x *ssa.IndexAddr) {
 	case *types.Slice:
 		g.oblige("bounds", "", and(sx("<=", "0", idx), sx("<", idx, sx("sl-len", base.T))), g.pos(x), "index in range")
 		g.assume(and(sx("<=", "0", idx), sx("<", idx, sx("sl-len", base.T))))
-		at := sx("+", sx("sl-off", base.T), idx)
+		at := sx("ix", sx("sl-off", base.T), idx)
 		if isStruct(t.Elem()) {
 			g.vals[x] = &Val{T: sx("elemref", sx("sl-base", base.T), at), Ty: x.Type()}
 			return
